@@ -305,7 +305,38 @@ func genOps(t *rapid.T, n int, addrs []uint64, label string) []work.ConcOp {
 	return ops
 }
 
+// decorate sends part of the operations through the package-level wrappers and makes part of the
+// writes repeat one of a few shared contents.
+func decorate(t *rapid.T, c *work.ConcCase) {
+	pkgPct := rapid.SampledFrom([]int{0, 0, 50, 50, 100}).Draw(t, "pkgPct")
+	poolPct := rapid.SampledFrom([]int{0, 0, 40, 80}).Draw(t, "poolPct")
+	if c.Kind == "file-mixed" {
+		poolPct = 0
+	}
+	for ci := range c.Clients {
+		for j := range c.Clients[ci] {
+			op := &c.Clients[ci][j]
+			op.Pkg = pkgPct > 0 && gen.Chance(t, "pkg", pkgPct)
+			if op.Op == "write" && poolPct > 0 && gen.Chance(t, "pool", poolPct) {
+				op.Pool = gen.Range(t, "poolk", 1, 2)
+			}
+		}
+	}
+}
+
 func genMem(t *rapid.T) work.ConcCase {
+	c := genMem0(t)
+	decorate(t, &c)
+	return c
+}
+
+func genFile(t *rapid.T) work.ConcCase {
+	c := genFile0(t)
+	decorate(t, &c)
+	return c
+}
+
+func genMem0(t *rapid.T) work.ConcCase {
 	c := work.ConcCase{Kind: "mem"}
 	c.Size = uint64(rapid.IntRange(1, 4).Draw(t, "size"))
 	c.Procs = rapid.SampledFrom([]int{2, 4, 16}).Draw(t, "procs")
@@ -324,7 +355,7 @@ func genMem(t *rapid.T) work.ConcCase {
 	return c
 }
 
-func genFile(t *rapid.T) work.ConcCase {
+func genFile0(t *rapid.T) work.ConcCase {
 	var c work.ConcCase
 	c.Procs = rapid.SampledFrom([]int{2, 4, 16}).Draw(t, "procs")
 	n := rapid.IntRange(2, 6).Draw(t, "clients")
@@ -379,6 +410,23 @@ func genFile(t *rapid.T) work.ConcCase {
 
 func labels(c work.ConcCase) {
 	ev.Label("kind=" + c.Kind)
+	pkg, meth, pool := false, false, false
+	for _, ops := range c.Clients {
+		for _, op := range ops {
+			pkg = pkg || op.Pkg
+			meth = meth || !op.Pkg
+			pool = pool || op.Pool > 0
+		}
+	}
+	switch {
+	case pkg && meth:
+		ev.Label("access: package-level wrappers and Disk methods mixed")
+	case pkg:
+		ev.Label("access: package-level wrappers only")
+	}
+	if pool {
+		ev.Label("writes repeating a shared block content")
+	}
 	ev.Label(fmt.Sprintf("procs=%d", c.Procs))
 	n := len(c.Clients)
 	switch {
